@@ -19,7 +19,8 @@ for d in sorted(glob.glob('/verif/seeded/S*')):
         "confirmed_by_me": {
             "demo_exit_with_change": ev["demo_exit_with_change"],
             "demo_exit_without_change": ev["demo_exit_without_change"],
-            "test_suite": am.get("tests_run"),
+            "test_suite_reported_by_agent": am.get("tests_run"),
+            "test_suite_rerun_by_me": (json.load(open(os.path.join(d, 'tests_confirmed.json'))) if os.path.exists(os.path.join(d, 'tests_confirmed.json')) else None),
             "how": "tools/seed_eval.sh: demo.py run in the scratch worktree with and without patch.diff (PYTHONPATH=<worktree>); then `git -C /repo apply patch.diff`, every ./check Cxx (quick), `git -C /repo checkout -- .`",
         },
         "checks_reporting_a_violation": ev["checks_reporting"].split(),
